@@ -70,12 +70,13 @@ type RT struct {
 	scopeOf   func(int) scopeAPI // set by Run: scope index -> live scope
 	decoIDs   map[int]bool       // fn ids registered through Decorate
 	Reentered int
+	infos     infoSlots
 	active    map[int]int // fn → number of bodies currently on the stack
 	Nested    []int       // fns whose body was entered while already running
 }
 
 func newRT() *RT {
-	return &RT{decoIDs: map[int]bool{}, ftypes: map[*Fn]reflect.Type{}, execs: map[int]int{}, errs: map[[2]int]*UserErr{}, panics: map[[2]int]*PanicVal{}, active: map[int]int{}}
+	return &RT{infos: infoSlots{map[int]*dig.ProvideInfo{}, map[int]*dig.DecorateInfo{}, map[int]*dig.InvokeInfo{}}, decoIDs: map[int]bool{}, ftypes: map[*Fn]reflect.Type{}, execs: map[int]int{}, errs: map[[2]int]*UserErr{}, panics: map[[2]int]*PanicVal{}, active: map[int]int{}}
 }
 
 func (rt *RT) newTok(fn, exec int, slot string, elem int) int64 {
